@@ -89,6 +89,7 @@ def _imports():
             self.kicks = 0
             self.walk = None
             self.plan = None
+            self.calls = []                    # (reverse, success, path.length) per _propagate_from call
 
         def script_wf(self, jumps, ext_back, ext_forw):
             """wire fencing: per jump (kick, back, forw), then the extender's two streams"""
@@ -97,12 +98,14 @@ def _imports():
             self.ran_out_ext = False
             self.used = {True: 0, False: 0}
             self.kicks = 0
+            self.calls = []
 
         def script(self, back, forw, kick, dek=0.0):
             self.back, self.forw, self.dek = list(back), list(forw), dek
             self.order_function.kick = kick
             self.used = {True: 0, False: 0}
             self.kicks = 0
+            self.calls = []
 
         def modify_velocities(self, system, vel_settings):
             self.kicks += 1
@@ -157,6 +160,7 @@ def _imports():
                 # the scripted "MD program" ended before add_to_path said stop (a real engine runs maxlen steps)
                 if self.plan is not None and self.phase == "ext":
                     self.ran_out_ext = True
+            self.calls.append((bool(reverse), bool(success), path.length))
             return success, status
 
     class ScriptedGen:
@@ -316,8 +320,13 @@ def run_real(case, eng=None, tis_set=None):
     info["ens_same"] = settings_snapshot(ens) == ens_before
     eng.order_function.conv = float
     info["draws"] = list(gen.log)
+    info["calls"] = list(getattr(eng, "calls", []))
     info["acc"], info["trial"], info["status"] = acc, trial, status
     if trial is not None:
+        try:
+            info["ci"] = trial.check_interfaces(ens["interfaces"])     # before any predicate touches the returned path
+        except Exception as e:  # noqa: BLE001
+            info["ci"] = err_kind(e)
         g = trial.generated
         ops = [to_int(s.order[0]) for s in trial.phasepoints]
         info["ops"] = ops
@@ -974,10 +983,29 @@ def run_real_wf_scripted(case, via_md=False, eng=None, tis_set=None):
            "mc_move": "wf", "start_cond": sc_tuple(case["sce"])}
     orig_ext = tis.extender
 
+    taps = {}
+
     def ext_wrapper(*a, **k):
         eng.phase = "ext"
-        return orig_ext(*a, **k)
+        r = orig_ext(*a, **k)
+        taps["ext"] = (r[0], r[1].length, r[2])
+        return r
     tis.extender = ext_wrapper
+    orig_subt = tis.subt_acceptance
+
+    def subt_wrapper(*a, **k):
+        r = orig_subt(*a, **k)
+        taps["subt"] = (r[0], r[1].status)
+        return r
+    tis.subt_acceptance = subt_wrapper
+    orig_shoot = tis.shoot
+    taps["shoots"] = []
+
+    def shoot_wrapper(*a, **k):
+        r = orig_shoot(*a, **k)
+        taps["shoots"].append(bool(r[0]))
+        return r
+    tis.shoot = shoot_wrapper
     before = snapshot(old)
     before_attrs = {k: v for k, v in old.__dict__.items() if k != "phasepoints"}
     ens_before = settings_snapshot(ens)
@@ -1026,8 +1054,12 @@ def run_real_wf_scripted(case, via_md=False, eng=None, tis_set=None):
     finally:
         _AUDIT["on"] = False
         tis.extender = orig_ext
+        tis.subt_acceptance = orig_subt
+        tis.shoot = orig_shoot
         tis.ENGINES = saved_eng
         eng.plan = None
+    res["taps"] = taps
+    res["draws"] = list(gen.log)
     after = snapshot(old)
     res["frames_same"] = frames_only(after) == frames_only(before)
     res["attr_changed"] = after != before and res["frames_same"]
@@ -1669,6 +1701,9 @@ def run(ctx):
         # ---- wire fencing: scripted tie against the Lean model, then free-running predicate runs
         wf_tie(ctx, have_model)
         wf_block(ctx)
+        # ---- extension: status tables (stage reached), select_shoot routing, run_md composed with weights
+        from props import c09ext
+        c09ext.ext_block(ctx, have_model, cases, real)
         if _HARNESS_EXC:
             ctx.extra["harness_exceptions"] = _HARNESS_EXC[:20]
             ctx.disagree({"fn": "harness"}, f"{len(_HARNESS_EXC)} harness exception(s), first: {_HARNESS_EXC[0]}", "none expected")
@@ -1731,6 +1766,29 @@ def replay(ctx, obj):
             got = real_atp(*r["atp"])
             print("code:", got, "recorded:", r.get("code"))
             return 1 if (atp_bad(r["atp"], got) or atp_missed(r["atp"], got)) else 0
+        if "md1" in r:
+            from props import c09ext
+            return c09ext.replay_md1(r)
+        if "route" in r:
+            from props import c09ext
+
+            class _C:
+                fails = []
+
+                def fail(self, sig, what, rep):
+                    self.fails.append((sig, what, rep))
+
+                def count(self, *a, **k):
+                    pass
+
+                def disagree(self, *a, **k):
+                    pass
+            cc = _C()
+            c09ext.routing(cc, False)
+            hit = [f for f in cc.fails if f[2].get("route") == r["route"]]
+            for sig, what, _ in hit:
+                print("FAILS:", sig, "-", what)
+            return 1 if hit else 0
         if "mdtwo" in r:
             from props import c11
             W = c11.World()
@@ -1752,6 +1810,11 @@ def replay(ctx, obj):
                     print("FAILS: run_md(wf) changed/replaced the old path on", res["status"])
                     return 1
             bad = wf_judge(wf_as_judged(r["wfs"]), res)
+            if not res.get("exc"):
+                from props import c09ext
+                oc = c09ext.real_wf_outcome(res)
+                if oc[0] in ("noframes", "nosegment", "exttoolong", "wrongstart") and res["status"] == "ACC":
+                    bad.append(("C09:wf:accepted-at-a-rejecting-stage", f"stage {oc}, status ACC"))
             print("wfs:", r["wfs"])
             print("code:", res["line"])
             for sig, what in bad:
@@ -1799,6 +1862,16 @@ def replay(ctx, obj):
             def fail(self, sig, what, rep):
                 self.fails.append((sig, what))
         c = C()
+        if line.startswith("ok") and not str(line).startswith("harness-exception"):
+            from props import c09ext
+            try:
+                oc = c09ext.real_shoot_outcome(case, info)
+                want = c09ext.status_by_table(oc, case["ML"]) if oc[0] in ("kob", "backfail", "wrongend", "forwfail", "final") else None
+                print("stage reached:", oc, "→ status by the table:", want, "; status of the code:", info["status"])
+                if want is not None and (want == "ACC") != (info["status"] == "ACC"):
+                    c.fails.append(("C09:shoot:acceptance-not-by-stage", f"stage {oc}: must be {want}, got {info['status']}"))
+            except Exception as e:  # noqa: BLE001
+                print("stage could not be determined:", type(e).__name__, e)
         evaluate(c, case, line, info)
         for sig, what in c.fails:
             print("FAILS:", sig, "-", what)
